@@ -26,6 +26,25 @@ added = {
  "C38-r2": "body / associated-data boundary moved with protobuf-shaped associated data",
  "C41-r2": "stream-id pairs differing in every single bit of the 20-bit field, two streams into one worker",
  "C45-r2": "principals differing only in the ISD in the authorization matrix and histories",
+ "C01-r3": "history independence (fresh processors vs. after stock packets vs. after the valid twin); packet-side tampering with the genuine MAC kept",
+ "C02-r3": "linear topologies with more than 32 hop fields per path",
+ "C05-r3": "foreign hop fields renumbered to coincide with own / sibling interfaces; history independence",
+ "C06-r3": "history independence over 14 predecessor packet kinds",
+ "C08-r3": "generated packets with valid MACs naming unknown / zero / sibling interfaces x router-alert flags",
+ "C10-r3": "traceroute request flagged for an egress interface whose link is down",
+ "C11-r3": "AddSvc / DelSvc histories with several instances per service",
+ "C14-r3": "well-formed STUN requests (the earlier ones lacked the fingerprint and were rejected) and a STUN burst scenario",
+ "C16-r3": "interval values around every width boundary of the microsecond / nanosecond conversions",
+ "C24-r3": "asynchronous verification units under contexts cancelled at every point",
+ "C25-r3": "beacons containing the local AS; propagation judged for anything in the store",
+ "C27-r3": "segment versions less than a second apart",
+ "C29-r3": "ASes sharing AS numbers across ISDs",
+ "C31-r3": "lifetimes below 10 s and timestamps in the future",
+ "C34-r3": "LoadChains from directories with several files in every order",
+ "C35-r3": "storage faults (InsertTRC error) at every position of the catch-up",
+ "C36-r3": "chains whose NotBefore and NotAfter vary independently",
+ "C37-r3": "chains whose CA certificate carries the same ISD-AS as the AS certificate",
+ "C47-r3": "policy options with equal and different weights, heaviest matching nothing",
 }
 rows = []
 for d in sorted(glob.glob("/verif/seeded/*/meta.json")):
@@ -47,7 +66,7 @@ for d in glob.glob("/verif/seeded/*/meta.json"):
 round_lines = "\n".join(f"   round {k}: {v[0]} changes, {v[1]} caught by the checks as they stood, {v[0]-v[1]} missed -> checks extended; caught now: {v[2]} of {v[0]}." for k, v in sorted(per_round.items()))
 sec = f"""## 10. Which checks catch which deliberate changes
 
-Three sources of breakage were used; nothing below was ever committed to `/repo`.
+Two sources of breakage were used; nothing below was ever committed to `/repo`.
 
 1. **Mutations chosen by the check authors** (the **M** entries of section 5 and further ones), applied through
    `VERIF_OVERLAY` (`tools/mut.py`): about 400 across the 48 checks, listed per check in the manifest fragments'
@@ -78,6 +97,6 @@ p = "/verif/DESIGN.md"
 s = open(p).read()
 i = s.find("## 10. Which checks catch which deliberate changes")
 if i >= 0: s = s[:i]
-s = s.rstrip() + "\n\n---------------------------------------------------------------------------------------------------\n\n" + sec
+s = s.rstrip().rstrip("-").rstrip() + "\n\n---------------------------------------------------------------------------------------------------\n\n" + sec
 open(p, "w").write(s)
 print("rows", total, "caught first", caught_first)
